@@ -1095,7 +1095,7 @@ func init() {
 			"reward payouts are delegated to the paying candidate: RewardEvents are taken as inflow of the ledger, their amounts are C19's subject",
 			"a byzantine punishment is recognised by the stake reduction observed in BeginBlock together with evidence in the request; when it must happen is C18's subject",
 		},
-		Quick: 28, Thorough: 360, MinEval: 4000, MinDistinct: 20,
+		Quick: 28, Thorough: 280, MinEval: 4000, MinDistinct: 20,
 		Run: runC16,
 		Post: func(total *WorkerResult) {
 			requireClasses(total, "leave/unbond/", "leave/move/", "matured/unbond/from-tx-08", "matured/move/from-tx-1b", "matured/lock/", "lock-created/",
